@@ -194,7 +194,10 @@ func buildFixture() *schemabuilder.Schema {
 	leaf := s.Object("Leaf", Leaf{})
 	leaf.Key("id")
 	leaf.FieldFunc("upper", func(l *Leaf) string { return strings.ToUpper(l.Name) })
-	other := s.Object("Alt", Other{}) // registered under another name than its Go type's
+	// one field name on two object types, with arguments of different types
+	leaf.FieldFunc("tagged", func(l *Leaf, args struct{ N int64 }) string { return fmt.Sprint(l.Name, args.N) })
+	other := s.Object("Alt", Other{})
+	other.FieldFunc("tagged", func(o *Other, args struct{ N string }) string { return fmt.Sprint(o.Code, args.N) }) // registered under another name than its Go type's
 	// same field name as Leaf.id (a scalar there), but an object here
 	other.FieldFunc("id", func(o *Other) *Leaf { return &Leaf{int64(o.Code), "of-other"} })
 	s.Mutation().FieldFunc("noop", func() bool { return true })
@@ -207,6 +210,7 @@ type qcase struct {
 	text       string
 	root       []*advert.Sel
 	wellFormed bool
+	lenient    bool // validation may reject; if it accepts, execution must not go wrong
 	kind       string
 }
 
@@ -353,7 +357,9 @@ func sharedFragments(a *advert.Advertised) []qcase {
 					case advert.IsLeaf(a.Types[f2.Type.Named().Name]) != leaf1:
 						kind = "shared-fragment-leaf-vs-composite"
 					default:
-						continue // same name and kind under another type: the property does not say
+						// same name and kind under another type (the arguments may differ): the property does not say
+						// whether that is valid, but what validation accepts must execute
+						kind, ok = "shared-fragment-same-name-other-type", true
 					}
 				}
 				for _, w1 := range first2(paths[n1]) {
@@ -365,7 +371,8 @@ func sharedFragments(a *advert.Advertised) []qcase {
 								x, y = w2("a", spread), w1("b", spread)
 								rx, ry = w2("a", body), w1("b", body)
 							}
-							out = append(out, qcase{text: "{ " + a.Print([]*advert.Sel{x, y}) + " }" + def, root: []*advert.Sel{rx, ry}, wellFormed: ok, kind: kind})
+							out = append(out, qcase{text: "{ " + a.Print([]*advert.Sel{x, y}) + " }" + def, root: []*advert.Sel{rx, ry}, wellFormed: ok, kind: kind,
+								lenient: kind == "shared-fragment-same-name-other-type"})
 						}
 					}
 				}
@@ -498,6 +505,9 @@ func run(rp *explore.Report, tier string) {
 			}
 			continue
 		}
+		if perr != nil && c.lenient {
+			continue
+		}
 		if perr != nil {
 			fail("advertised-is-accepted", c.kind, c.text, "a query built only from advertised fields and types was rejected: %v", perr)
 			continue
@@ -518,6 +528,9 @@ func run(rp *explore.Report, tier string) {
 				fail("accepted-cannot-go-wrong", c.kind, c.text, "execution of an accepted query failed (scheduler %d): %v", si, err)
 				continue
 			}
+			if c.lenient {
+				continue // (the reference selection names the first type's field definition)
+			}
 			if e := adv.ConformObject(adv.Types[adv.Query], c.root, res, "$"); e != "" {
 				fail("response-conforms", c.kind, c.text, "response %s does not conform to the advertised schema: %s", gqlfix.JS(res), e)
 			}
@@ -528,5 +541,5 @@ func run(rp *explore.Report, tier string) {
 
 func init() {
 	reg.Register(&reg.Harness{Property: "C14", Name: "c14/advertised", Level: "exploration", Run: run,
-		Rule: "fixture of Go shapes (all scalar widths, named scalars, enum, time, bytes, text-marshaler, pointers, slices of values/pointers/enums, nested and value structs, union, NonNullable / ListEntryNonNullable / Expensive / batch methods, NonNullable plain and batch methods (object and scalar pointers) that return nil for some objects, methods with NumParallelInvocations, null objects and lists of nulls, methods with every signature form, arguments incl. input objects) -> introspection JSON. From the JSON alone: every path of composite fields up to depth 2 (thorough 3), ending in all leaves / all fields / each field alone / the same field under two aliases / union fields with fragments for only one member or none (arguments filled from advertised input types), plus at every position the three ill-formedness kinds (unknown field, selection on a leaf, none on a composite), plus one named fragment (each field of each object type) spread at two positions: the same type twice (well-formed) or a second type that lacks the field or has it with the other leaf/composite kind (ill-formed), in both orders; plus one composite field selected under one alias with two different sub-selections at two paths to the same (long-lived) object; plus one response key selected twice in one selection set with a named or inline fragment in the first or the second occurrence (objects and unions). Oracle: ill-formed => rejected; well-formed => accepted, executes without error under FIFO and LIFO schedulers and inside a reactive rerunner, and the response conforms to the advertised types (exact aliases, lists, scalar JSON kinds, enum values, null only where nullable, list entries excepted)"})
+		Rule: "fixture of Go shapes (all scalar widths, named scalars, enum, time, bytes, text-marshaler, pointers, slices of values/pointers/enums, nested and value structs, union, NonNullable / ListEntryNonNullable / Expensive / batch methods, NonNullable plain and batch methods (object and scalar pointers) that return nil for some objects, methods with NumParallelInvocations, null objects and lists of nulls, methods with every signature form, arguments incl. input objects) -> introspection JSON. From the JSON alone: every path of composite fields up to depth 2 (thorough 3), ending in all leaves / all fields / each field alone / the same field under two aliases / union fields with fragments for only one member or none (arguments filled from advertised input types), plus at every position the three ill-formedness kinds (unknown field, selection on a leaf, none on a composite), plus one named fragment (each field of each object type) spread at two positions: the same type twice (well-formed) or a second type that lacks the field or has it with the other leaf/composite kind (ill-formed), or has it with the same kind - possibly other argument types - (validation may reject, what it accepts must execute), in both orders; plus one composite field selected under one alias with two different sub-selections at two paths to the same (long-lived) object; plus one response key selected twice in one selection set with a named or inline fragment in the first or the second occurrence (objects and unions). Oracle: ill-formed => rejected; well-formed => accepted, executes without error under FIFO and LIFO schedulers and inside a reactive rerunner, and the response conforms to the advertised types (exact aliases, lists, scalar JSON kinds, enum values, null only where nullable, list entries excepted)"})
 }
